@@ -93,8 +93,9 @@ func NewServerDnsListener(topDomain string, comm ServerCommunicator) *ServerDnsL
 					log.Infof("Removing stale user connection for user %d (%s)", u.UserId, u.remoteAddress)
 					srv.connections[u.UserId] = nil
 					srv.oldConnections[u.UserId] = u
-					// The peer is gone: wake up a Read that is waiting for data
+					// The peer is gone: wake up a Read that is waiting for data and a Write that is waiting for an acknowledgement
 					u.in.Close()
+					u.out.Close()
 				}
 			}
 
@@ -171,8 +172,9 @@ func (s *ServerDnsListener) closeConnection(u *userConnection) error {
 	s.connections[u.UserId] = nil
 	s.oldConnections[u.UserId] = u
 	u.closed = true
-	// Nothing more will arrive: wake up a Read that is waiting for data
+	// Nothing more will arrive: wake up a Read that is waiting for data and a Write that is waiting for an acknowledgement
 	u.in.Close()
+	u.out.Close()
 
 	return nil
 }
